@@ -688,6 +688,44 @@ def stream_oracle(cx, profiles=None, mult=1, stop_on_first=False):
                 if stop_on_first:
                     return
     cx.cov["distinct_nontrivial"] = len(cx.seen)
+    if profiles is None and mult == 1 and key != "gen":
+        history_oracle(cx)
+        cx.cov["distinct_nontrivial"] = len(cx.seen)
+
+
+def history_oracle(cx):
+    """the byte-level properties are also asked of generators with a *history*: the last result of call sequences
+    (generate / generate_from_arbitrary / reset, re-configuration of protocol, range, seed and the opt-in flags through
+    the public fields in between) is judged by the oracle under the configuration in force at that call — a stale
+    cache of anything configuration-dependent shows up here as a violation of the property it concerns, not only as
+    a C08 difference"""
+    key = cx.P["key"]
+    n = 400 if cx.tier == "quick" else 16000
+    try:
+        req = harness_lines(["hist", "--cases", str(n), "--seed", str(cx.seed * 41 + 9), "--maxlen", "4", "--oracle"])
+    except Exception as e:
+        cx.corr.append(dict(stream="oracle-history", count=1, first="history family could not run: %s" % str(e)[:300]))
+        return
+    reqs = [l for l in req.split("\n") if l.startswith("oracle ")]
+    if cx.P["unsafe"] == "0":
+        reqs = [l for l in reqs if " unsafe=0 " in l and " mu=0 " in l]
+    outs = [l for l in drive("\n".join(reqs) + "\n") if l.startswith("oracle ")]
+    if len(outs) != len(reqs):
+        cx.corr.append(dict(stream="oracle-history", count=1, first="driver answered %d of %d history requests" % (len(outs), len(reqs))))
+        return
+    for req, o in zip(reqs, outs):
+        v = toks(o)
+        r = toks(req)
+        cx.cov["evaluations"] += 1
+        cx.bump("history/" + ("reconfigured" if re.search(r"hist=\S*[cs]\d", req) else "plain"))
+        if v.get("gen") != "ok":
+            continue
+        if is_nontrivial(cx.prop, v):
+            cx.seen.add(hashlib.sha256(r.get("result", "").encode()).hexdigest())
+        if v.get(key, "").startswith("FAIL"):
+            cl = case_of(req)
+            cx.failing.append(("oracle-history", cl, v[key] + "_(last_call_of_the_history_hist=...;_rerun:_pfv-harness_hist_--case_<tokens>_calls=<hist>)"))
+            cx.jobs[cl] = "%s hist --oracle --case %s calls=%s | %s %s" % (HARNESS, " ".join(t for t in cl.split(" ") if not t.startswith("hist=")), r.get("hist", ""), DRIVER, os.path.join(REPO, "data", "stdlib_complete.txt"))
 
 
 def directed_values(cx):
@@ -747,6 +785,58 @@ def directed_values(cx):
                 cx.failing.append(("oracle", case_of(r), "generation_did_not_return_a_pickle:" + v.get("gen", "?")))
         elif key != "gen" and v.get(key, "").startswith("FAIL"):
             cx.failing.append(("oracle", case_of(r), v[key]))
+
+
+def memo_boundary(cx):
+    """states at the width boundary of the memo opcodes, reached directly instead of by thousands of random opcodes:
+    fuzzer bytes (computed by the model's `steer`) under which the generator fills the memo with 254..257 entries
+    through `NONE PUT` pairs (and MEMOIZE / LONG_BINPUT where the protocol has them), followed by free bytes for a
+    dozen further choices — whatever the generator picks next at the boundary (BINPUT, BINGET, a cached candidate
+    list, a stale guard) is judged by the oracle.  Random sampling needs 3000+ opcodes per pickle to get there."""
+    rng = random.Random(cx.seed * 7 + 256)
+    reqs, meta = [], []
+    nvar = 24 if cx.tier == "quick" else 400
+    for p in range(6):
+        cfg = "P=%d unsafe=0 ext=0 buf=0 mask=0 rate=0000000000000000" % p
+        puts = ["Put"] + (["LongBinPut"] if p >= 1 else []) + (["Memoize"] if p >= 4 else [])
+        for size in (254, 255, 256, 257):
+            for put in puts:
+                plan = ["None", "Put"] * (size - 1) + ["None", put]
+                reqs.append("steer %s frame=0 plan=%s" % (cfg, ",".join(plan))); meta.append((cfg, len(plan), size, put))
+    outs = [l for l in drive("\n".join(reqs) + "\n") if l.startswith("steer ")]
+    if len(outs) != len(reqs):
+        cx.corr.append(dict(stream="memo-boundary", count=1, first="steer answered %d of %d" % (len(outs), len(reqs))))
+        return
+    lines = []
+    for (cfg, n, size, put), o in zip(meta, outs):
+        if not o.startswith("steer ok"):
+            continue
+        b = toks(o).get("bytes", "")
+        for v in range(nvar):
+            k = 1 + v % 12
+            tail = bytes(rng.randrange(256) for _ in range(4 * k + 8)).hex()
+            lines.append("id=%d %s min=%d max=%d warm=0 mode=arb:%s%s" % (len(lines), cfg, n + k, n + k, b, tail))
+    if len(lines) < 100:
+        cx.corr.append(dict(stream="memo-boundary", count=1, first="only %d memo-boundary inputs could be built" % len(lines)))
+        return
+    rc, req, err = sh([HARNESS, "oracle", "--stdin"], inp="\n".join(lines) + "\n", timeout=STREAM_TIMEOUT[0])
+    if rc != 0:
+        cx.corr.append(dict(stream="memo-boundary", count=1, first="harness oracle --stdin failed: " + err[-200:]))
+        return
+    rl = [l for l in req.split("\n") if l.startswith("oracle ")]
+    vs = [toks(l) for l in drive(req) if l.startswith("oracle ")]
+    key = cx.P["key"]
+    cx.cov["memo_boundary_cases"] = len(rl)
+    for r, v in zip(rl, vs):
+        cx.cov["evaluations"] += 1
+        cx.bump("memo-boundary")
+        if v.get("gen") != "ok":
+            if key == "gen":
+                cx.failing.append(("oracle", case_of(r), "generation_did_not_return_a_pickle:" + v.get("gen", "?")))
+        elif key != "gen" and v.get(key, "").startswith("FAIL"):
+            cx.failing.append(("oracle", case_of(r), v[key]))
+        elif is_nontrivial(cx.prop, v):
+            cx.seen.add(hashlib.sha256(toks(r).get("result", "").encode()).hexdigest())
 
 
 def deep_nesting(cx):
@@ -1297,6 +1387,11 @@ def check_property(prop, tier, seed):
             directed_values(cx)
         except Exception as e:
             cx.corr.append(dict(stream="directed", count=1, first="directed-value family could not run: %s" % str(e)[:400]))
+    if prop in ("C02", "C17", "C01", "C05", "C11", "C09"):
+        try:
+            memo_boundary(cx)
+        except Exception as e:
+            cx.corr.append(dict(stream="memo-boundary", count=1, first="memo-boundary family could not run: %s" % str(e)[:400]))
     for st in P["streams"]:
         try:
             STREAMS[st](cx)
@@ -1339,6 +1434,16 @@ def check_property(prop, tier, seed):
                 continue
             RERUN_REL[0] = cl in REL_CASES
             extra_fields = {}
+            if stream == "oracle-history":
+                p = write_replay(prop, "failing-input", dict(stream="oracle", case=cl, observed=det, required="the property holds for the last call of this history",
+                                 history_dependent=True, fails_only_inside_process=cx.jobs.get(cl, "?"),
+                                 note="the case line is the configuration in force at the last generating call; hist= is the call sequence on one generator "
+                                      "(g generate, a<hex> generate_from_arbitrary, r reset, c<v>:<min>:<max> and s<seed>:<ext>:<buf> re-configuration through the public fields)"))
+                if any(ok_ in k for ok_ in open_keys):
+                    known_lines.append("KNOWN-FINDING: property=%s %s (replay %s)" % (prop, det[:200], p))
+                else:
+                    violations.append((p, ""))
+                continue
             if stream == "oracle" and P["key"] != "gen":
                 mcl = minimise(cl, P["key"])
                 _, v = rerun_case(mcl)
